@@ -21,10 +21,6 @@ int main(void) {
 		const char * errorPos;
 		int res;
 		live = 0; count = 0; failAt = -1;
-		if (uriParseSingleUriExMmA(&uri, "a%41/b%42/c", NULL, &errorPos, &mm) != URI_SUCCESS) {
-			/* afterLast NULL is not allowed for ExMm: use explicit range */
-		}
-		uriFreeUriMembersMmA(&uri, &mm);
 		live = 0; count = 0;
 		{
 			const char * t = "a%41/b%42/c";
